@@ -89,7 +89,9 @@ Fixpoint model_rows (vh : nat -> nat -> N) (probes : list ((N * N) * gval)) (s :
   | [], [] => Some s
   | o :: ops', row :: rows' =>
       let s' := step vh s o in
-      if all2 (fun pk ob => res_eqb3 (model_get s' pk) ob) probes row then model_rows vh probes s' ops' rows' else None
+      (* an EMPTY row: the driver made no lookup between this op and the next one (nothing to compare) *)
+      if match row with [] => true | _ => all2 (fun pk ob => res_eqb3 (model_get s' pk) ob) probes row end
+      then model_rows vh probes s' ops' rows' else None
   | _, _ => None
   end.
 
@@ -151,13 +153,16 @@ Definition row_ok (vh : nat -> nat -> N) (cap : nat) (probes : list (N * N)) (m 
                      | Some a => positive_member a m'
                      | None => forallb (fun nr => Nat.eqb (snd nr) 0) m'
                      end) row &&
-  (* minimal disruption, stated on observations alone *)
+  (* minimal disruption, stated on observations alone (prev = []: no lookups were made under the previous
+     membership, nothing to compare with) *)
   match o with
   | Remove n =>
-      all2 (fun pv ob => match pv with Some a => if Nat.eqb a n then true else option_eqb Nat.eqb ob (Some a) | None => true end) prev row
+      match prev with [] => true | _ =>
+      all2 (fun pv ob => match pv with Some a => if Nat.eqb a n then true else option_eqb Nat.eqb ob (Some a) | None => true end) prev row end
   | Add n r =>
       (if is_member n m then true
-       else all2 (fun pv ob => match ob with Some a => Nat.eqb a n || option_eqb Nat.eqb pv (Some a) | None => true end) prev row) &&
+       else match prev with [] => true | _ =>
+            all2 (fun pv ob => match ob with Some a => Nat.eqb a n || option_eqb Nat.eqb pv (Some a) | None => true end) prev row end) &&
       (if Nat.eqb (Nat.min r cap) 0 then forallb (fun ob => negb (option_eqb Nat.eqb ob (Some n))) row else true)
   end.
 
@@ -167,7 +172,11 @@ Fixpoint spec_rows (vh : nat -> nat -> N) (cap : nat) (probes : list (N * N)) (m
   | [], [] => true
   | o :: ops', row :: rows' =>
       let m' := sstep cap m (sop_of o) in
-      row_ok vh cap probes m m' o prev row && spec_rows vh cap probes m' row ops' rows'
+      (* an EMPTY row: membership ops made back to back, without a lookup in between *)
+      match row with
+      | [] => spec_rows vh cap probes m' [] ops' rows'
+      | _ => row_ok vh cap probes m m' o prev row && spec_rows vh cap probes m' row ops' rows'
+      end
   | _, _ => false
   end.
 
@@ -230,7 +239,16 @@ Definition hyp_ok (c : hcase) : bool :=
 Inductive case :=
 | CH (h : hcase)
 | CX (weights : list nat) (got ref : list (option nat))
-| CF (got ref : list N).
+| CF (got ref : list N)
+(* CL: like CX, but the configuration went through the conf loader (JSON / YAML text, Weight entries omitted for some
+       nodes): written = the Weight entries of the text (None = omitted, which MEANS the documented default 100), loaded = the weights found
+       in the loaded configuration; tol > 0: every node's share of the keys within tol percent of its weight share.
+   CD: kv multi-key Del over several shards: nkeys keys (adjacent keys on different shards) deleted in ONE call;
+       count = its result, remaining = named keys still present on any shard afterwards, kept = the other keys survived,
+       errors = failed calls; s* = the same with one Del call per key on a twin store. *)
+| CL (written : list (option nat)) (got ref : list (option nat)) (loaded : list nat) (tol : nat)
+| CD (nkeys count : nat) (remaining : list nat) (kept : bool) (errors scount : nat) (sremaining : list nat)
+     (skept : bool) (serrors : nat).
 
 Definition dispatch_ok (weights : list nat) (got ref : list (option nat)) : bool :=
   list_eqb optnat_eqb got ref &&
@@ -240,11 +258,30 @@ Definition dispatch_ok (weights : list nat) (got ref : list (option nat)) : bool
                     | None => forallb (fun w => Nat.eqb w 0) weights
                     end) got.
 
+Definition default_weight : nat := 100.   (* cache.NodeConfig: Weight int `json:",default=100"` *)
+
+Definition loaded_ok (written : list (option nat)) (got ref : list (option nat)) (loaded : list nat) (tol : nat) : bool :=
+  let weights := map (fun o => match o with Some w => w | None => default_weight end) written in
+  dispatch_ok weights got ref && list_eqb Nat.eqb loaded weights &&
+  match tol with
+  | O => true
+  | _ => balance_ok tol (combine (seq 0 (List.length weights)) weights) got
+  end.
+
+Definition multidel_ok (nkeys count : nat) (remaining : list nat) (kept : bool) (errors scount : nat)
+           (sremaining : list nat) (skept : bool) (serrors : nat) : bool :=
+  (* every named key is removed from ITS owner: none exists afterwards, all were counted, nothing else was touched *)
+  Nat.eqb count nkeys && match remaining with [] => true | _ => false end && kept && Nat.eqb errors 0 &&
+  (* ... exactly like single-key deletes *)
+  Nat.eqb scount count && match sremaining with [] => true | _ => false end && skept && Nat.eqb serrors 0.
+
 Definition model_ok (c : case) : bool :=
   match c with
   | CH h => ring_model_ok h
   | CX w got ref => dispatch_ok w got ref
   | CF got ref => list_eqb N.eqb got ref
+  | CL w got ref l tol => loaded_ok w got ref l tol
+  | CD n c r k e sc sr sk se => multidel_ok n c r k e sc sr sk se
   end.
 
 Definition spec_ok (c : case) : bool :=
@@ -252,4 +289,6 @@ Definition spec_ok (c : case) : bool :=
   | CH h => ring_spec_ok h
   | CX w got ref => dispatch_ok w got ref
   | CF got ref => list_eqb N.eqb got ref
+  | CL w got ref l tol => loaded_ok w got ref l tol
+  | CD n c r k e sc sr sk se => multidel_ok n c r k e sc sr sk se
   end.
